@@ -203,6 +203,19 @@ def main():
             wt = f'{d}/{pid}'
             worktree(wt)
             open(f'{d}/prompt_{pid}.txt', 'w').write(AUDIT_TMPL.format(wt=wt, id=pid, title=pr['title'], statement=pr['statement'], quant=pr['quantifier']['text'], extra=LAB_NOTE if pid == "C20" else ""))
+    elif kind == "audit2":
+        props = {json.loads(l)['id']: json.loads(l) for l in open('/verif/properties.jsonl')}
+        note = ("\n\nThis is a SECOND audit. `git log --oneline | grep fix:` in the worktree lists defects already found and repaired - do not report those again. "
+                "Also already known and NOT of interest: numpy scalar types (np.int64, np.float32) refused with TypeError by parameters documented as int/float; wrap-around of narrow "
+                "integer dtypes (int8/int16/uint8 arrays) in arithmetic; zero-length fibres; corners where the statement itself cannot hold mathematically. "
+                "This time go about it differently: read EVERY function the statement touches line by line, and for each branch, slice, division, comparison, isinstance test, default value and "
+                "loop bound ask which in-domain input takes it to the wrong place (an untested branch, an operator-precedence slip, a variable used before assignment on some path, a mutable default, "
+                "an off-by-one at a block boundary, a condition that is always true/false, a sibling function that handles a case this one forgets, inconsistent validation vs. dispatch, "
+                "a documented option spelling that is not honoured, state left behind by an earlier call). Prefer silent wrong answers over loud exceptions, but report both.")
+        for pid, pr in props.items():
+            wt = f'{d}/{pid}'
+            worktree(wt)
+            open(f'{d}/prompt_{pid}.txt', 'w').write(AUDIT_TMPL.format(wt=wt, id=pid, title=pr['title'], statement=pr['statement'], quant=pr['quantifier']['text'], extra=(LAB_NOTE if pid == "C20" else "") + note))
     elif kind == "small2":
         props = {json.loads(l)['id']: json.loads(l) for l in open('/verif/properties.jsonl')}
         for g, (f, fu) in GROUPS.items():
